@@ -221,6 +221,10 @@ func (c *VCtx) store(fr *Frame, st *State, p Val, v Val, pos token.Pos) {
 		case "elem":
 			hs := ArrSort(SRef, ArrSort(SInt, l.Sort))
 			h := c.heap(st, l.Heap, hs)
+			for _, arr := range c.callerOwnedArrays() {
+				// "caller-owned" slices are assumed unwritten by everybody else; this function must not write them either
+				c.prove("own.caller-owned", "an element store does not go into a slice argument declared caller-owned", st.pc, Not(Eq(l.Base, arr)), nil)
+			}
 			c.setHeap(st, l.Heap, Store(h, l.Base, Store(Select(h, l.Base), l.Idx, tv)))
 		default:
 			unsup("store to %s location", l.Kind)
@@ -291,7 +295,7 @@ func (c *VCtx) zeroInit(st *State, r *Term, t types.Type) {
 			hn := elemHeapName(es)
 			h := c.heap(st, hn, ArrSort(SRef, ArrSort(SInt, es)))
 			z := c.asTerm(c.zero(at.Elem()))
-			c.setHeap(st, hn, Store(h, arr, T(ArrSort(SInt, es), fmt.Sprintf("((as const (Array Int %s)) %s)", es, z.S))))
+			c.setHeap(st, hn, Store(h, arr, c.zeroArray(es, z)))
 			continue
 		}
 		fs := sortOf(ft)
@@ -363,7 +367,7 @@ func (c *VCtx) execInstr(fr *Frame, st *State, in ssa.Instruction, incoming map[
 			hn := elemHeapName(es)
 			h := c.heap(st, hn, ArrSort(SRef, ArrSort(SInt, es)))
 			z := c.asTerm(c.zero(at.Elem()))
-			c.setHeap(st, hn, Store(h, r, T(ArrSort(SInt, es), fmt.Sprintf("((as const (Array Int %s)) %s)", es, z.S))))
+			c.setHeap(st, hn, Store(h, r, c.zeroArray(es, z)))
 			fr.env[x] = &Loc{Kind: "arr", Base: r, GT: el}
 		} else {
 			r := c.freshRef(st, "cell")
@@ -509,7 +513,7 @@ func (c *VCtx) execInstr(fr *Frame, st *State, in ssa.Instruction, incoming map[
 		hn := elemHeapName(es)
 		h := c.heap(st, hn, ArrSort(SRef, ArrSort(SInt, es)))
 		z := c.asTerm(c.zero(x.Type().Underlying().(*types.Slice).Elem()))
-		c.setHeap(st, hn, Store(h, r, T(ArrSort(SInt, es), fmt.Sprintf("((as const (Array Int %s)) %s)", es, z.S))))
+		c.setHeap(st, hn, Store(h, r, c.zeroArray(es, z)))
 		fr.env[x] = MkSlice(r, IntLit(0), ln, cp, x.Type())
 	case *ssa.MapUpdate:
 		c.mapUpdate(fr, st, x)
@@ -742,6 +746,7 @@ func (c *VCtx) loopHead(fr *Frame, li *loopInfo, st *State, phis []*ssa.Phi) {
 	for _, p := range phis {
 		fr.env[p] = c.freshVal("phi!"+p.Comment, p.Type())
 	}
+	c.callerOwnedFacts(st)
 	// 3. assume the invariant
 	for _, ai := range c.autoRangeInvs(fr, li, phis) {
 		c.fact(Implies(st.pc, ai()))
@@ -862,6 +867,46 @@ func (c *VCtx) ghostModsIn(fr *Frame, mods map[string]Sort, body map[*ssa.BasicB
 	for _, g := range fr.contract.Ghost {
 		if g.At == "entry" || g.At == "exit" {
 			continue // executed once, outside every loop of the function
+		}
+		if body != nil && fr.fn != nil && strings.HasPrefix(g.At, "unlock ") {
+			inside := false
+			for b := range body {
+				for _, in := range b.Instrs {
+					if ci, ok := in.(ssa.CallInstruction); ok {
+						if sc := ci.Common().StaticCallee(); sc != nil && (strings.HasSuffix(sc.Name(), "Unlock") || sc.Name() == "HoldLock" || sc.Name() == "TryHoldLock") {
+							inside = true
+						}
+					}
+				}
+			}
+			if !inside {
+				continue
+			}
+		}
+		if body != nil && fr.fn != nil && (strings.HasPrefix(g.At, "close ") || strings.HasPrefix(g.At, "go ") || strings.HasPrefix(g.At, "makechan ")) {
+			// only if the loop body contains such an instruction at all
+			inside := false
+			for b := range body {
+				for _, in := range b.Instrs {
+					switch x := in.(type) {
+					case *ssa.Go:
+						if strings.HasPrefix(g.At, "go ") {
+							inside = true
+						}
+					case *ssa.MakeChan:
+						if strings.HasPrefix(g.At, "makechan ") {
+							inside = true
+						}
+					case ssa.CallInstruction:
+						if bi, ok := x.Common().Value.(*ssa.Builtin); ok && bi.Name() == "close" && strings.HasPrefix(g.At, "close ") {
+							inside = true
+						}
+					}
+				}
+			}
+			if !inside {
+				continue
+			}
 		}
 		if body != nil && fr.fn != nil && strings.HasPrefix(g.At, "invoke ") {
 			// "invoke <Method>": only if such a call through an interface occurs inside the loop
@@ -1317,4 +1362,25 @@ func siteID(key string) int64 {
 	}
 	siteIDs[id] = key
 	return id
+}
+
+// zeroArray: an array whose elements all have the zero value z. A constant array where the solvers accept
+// it; for uninterpreted element sorts (cvc5 wants a value there) a declared array with a defining axiom.
+func (c *VCtx) zeroArray(es Sort, z *Term) *Term {
+	switch es {
+	case SInt, SBool:
+		return T(ArrSort(SInt, es), fmt.Sprintf("((as const (Array Int %s)) %s)", es, z.S))
+	}
+	name := "zeroarr!" + strings.Map(func(r rune) rune {
+		if r == ' ' || r == '(' || r == ')' {
+			return '_'
+		}
+		return r
+	}, string(es)+"!"+z.S)
+	a := c.declare(name, ArrSort(SInt, es))
+	if !c.declSet["ax:"+name] {
+		c.declSet["ax:"+name] = true
+		c.facts0(T(SBool, fmt.Sprintf("(forall ((i Int)) (! (= (select %s i) %s) :pattern ((select %s i))))", a.S, z.S, a.S)))
+	}
+	return a
 }
